@@ -537,7 +537,7 @@ pub fn parse_h1_response(buf: &[u8]) -> Result<Option<H1Response>, String> {
             Err(e) => return Err(format!("malformed response head: {}", e)),
             Ok(httparse::Status::Complete(n)) => {
                 let status = r.code.unwrap_or(0);
-                if (100..200).contains(&status) {
+                if (100..200).contains(&status) && status != 101 {
                     interim.push(status);
                     off += n;
                     continue;
